@@ -9,10 +9,12 @@
      * the default evaluator credits every prediction to exactly one arm: the evaluated counts sum to the
        number of test rows (predictions among the distinct arms);
      * under exact arithmetic the sums add up as well (C06/C20 permutation invariance of the sum).
-    ..._partial: min <= mean <= max ordering and the numerical std are checked by direct recomputation on the
+     * the reported minimum and maximum of a reward list are elements of the list that bound every element, so min <= max
+       (order laws);
+    ..._partial: mean between min and max, and the numerical std, are checked by direct recomputation on the
     implementation's public attributes. *)
 From Coq Require Import List ZArith Bool Arith QArith Qcanon Permutation.
-From MW Require Import Num Assoc AssocFacts Rng Par CF CFInv CFClean CFForget CFSpec Matrix Lin Warm WarmInv Nbr NbrFacts NbrIndep LshFacts Clu Tree CellFacts Mab FacadeCF FacadeArms MoreFacts NumLaws CFAlg Sim Extra QcInst.
+From MW Require Import Num Assoc AssocFacts Rng Par CF CFInv CFClean CFForget CFSpec Matrix Lin Warm WarmInv Nbr NbrFacts NbrIndep LshFacts Clu Tree CellFacts Mab FacadeCF FacadeArms MoreFacts NumLaws CFAlg Sim Extra QcInst OrderFacts ExpIrrel LinInv FacadeLin LpInv NbrInv CluTreeInv FacadeAll ToyFacts C09All C10All LinForget LinSim MatrixFacts GaussJordan LinSpec NbrIndepGen CluIndep C17Lin WarmIdem C14More LshScale TreeLeaf Rename PopSpec CopyFacts StatFacts.
 Import ListNotations.
 
 Theorem C16_ordered_split_partition :
@@ -62,5 +64,28 @@ Theorem C16_sums_invariant_under_row_order :
   NumLaws N -> forall l l' : list R, Permutation l l' -> nsum N l = nsum N l'.
 Proof. exact @nsum_permutation. Qed.
 Print Assumptions C16_sums_invariant_under_row_order.
+
+Theorem C16_minimum_is_an_attained_lower_bound :
+  forall (R : Type) (N : Num R),
+  NumLaws N ->
+  forall l : list R,
+  l <> [] -> In (list_min N l) l /\ (forall x : R, In x l -> leb N (list_min N l) x = true).
+Proof. exact @list_min_is_attained_lower_bound. Qed.
+Print Assumptions C16_minimum_is_an_attained_lower_bound.
+
+Theorem C16_maximum_is_an_attained_upper_bound :
+  forall (R : Type) (N : Num R),
+  NumLaws N ->
+  forall l : list R,
+  l <> [] -> In (list_max N l) l /\ (forall x : R, In x l -> leb N x (list_max N l) = true).
+Proof. exact @list_max_is_attained_upper_bound. Qed.
+Print Assumptions C16_maximum_is_an_attained_upper_bound.
+
+Theorem C16_min_le_max :
+  forall (R : Type) (N : Num R),
+  NumLaws N ->
+  forall rs : list R, rs <> [] -> leb N (st_min (get_stats N rs)) (st_max (get_stats N rs)) = true.
+Proof. exact @stats_min_le_max. Qed.
+Print Assumptions C16_min_le_max.
 
 
